@@ -106,26 +106,29 @@ theorem fill_default_table :
   ⟨rfl, fun _ _ => rfl, rfl, fun _ => rfl⟩
 
 /-- The dtype default for EVERY integer-like dtype — every kind that takes the integer arm (`int8 … int64`,
-    `uint8 … uint64`), whatever its width — is 0, for bool False, for every `<U` width ''. -/
+    `uint8 … uint64`), whatever its width — is 0, for bool False, for every `<U` width '', for bytes b''. -/
 theorem default_by_kind (kind : Char) (size : Nat) (casts : List (PyVal × Option Val)) :
     (branchOf kind = .int → coerce (mkDType kind size casts) .none = .ok (.i 0)) ∧
     (branchOf kind = .bool → coerce (mkDType kind size casts) .none = .ok (.b false)) ∧
-    (branchOf kind = .str → coerce (mkDType kind size casts) .none = .ok (.s [])) := by
-  refine ⟨?_, ?_, ?_⟩ <;> intro h <;> simp [mkDType, h, coerce, defaultFill]
+    (branchOf kind = .str → coerce (mkDType kind size casts) .none = .ok (.s [])) ∧
+    (branchOf kind = .bytes → coerce (mkDType kind size casts) .none = .ok (.y [])) := by
+  refine ⟨?_, ?_, ?_, ?_⟩ <;> intro h <;> simp [mkDType, h, coerce, defaultFill]
 
 /-- **Reflected: the model's branch function is the code's `if/elif` chain.**  For every dtype of the probed
     catalogue (`Generated.reindexProbes`, rewritten from the imported fsic on every run) that the model treats
-    itself — bool, every integer width signed and unsigned, timedelta64, every `<U`, float64 — what the real
+    itself — bool, every integer width signed and unsigned, timedelta64, every `<U`, bytes, float64 — what the real
     `reindex` put into a new period with no fill value, and with `fill_value=2.9`, is what the model computes. -/
 theorem reflected_branches :
     ∀ e ∈ Fsic.Generated.reindexProbes,
       (branchOf e.2.1 ≠ .passthrough ∨ (e.2.1 = 'f' ∧ e.2.2.1 = 8)) →
         encode (coerce (mkDType e.2.1 e.2.2.1 []) .none) = e.2.2.2.1 ∧
-        encode (coerce (mkDType e.2.1 e.2.2.1 []) (.f 4613712638259704627 (some 2) ['2', '.', '9'])) = e.2.2.2.2 := by
+        (branchOf e.2.1 ≠ .bytes →     -- (a given fill value of a bytes series is cast by NumPy: an input)
+          encode (coerce (mkDType e.2.1 e.2.2.1 []) (.f 4613712638259704627 (some 2) ['2', '.', '9'])) = e.2.2.2.2) := by
   decide
 
 /-- **Reflected: the code's defaults are the property's table** (False, 0, NaN, '') for every probed dtype of a kind
-    the table speaks about: bool, all signed and unsigned integer widths, float16/32/64, complex64/128, `<U`. -/
+    the table speaks about: bool, all signed and unsigned integer widths, float16/32/64, complex64/128, `<U`, bytes
+    ('' ↔ b''). -/
 theorem reflected_property_defaults :
     ∀ e ∈ Fsic.Generated.reindexProbes, ∀ d, propertyDefault e.2.1 = some d → e.2.2.2.1 = d := by
   decide
